@@ -71,7 +71,7 @@ CHECKS = {
    design_ref="4/C06, 10.5"),
  "C07": dict(level="exploration", engine="E3 enum (g4 grammar)",
    text="Every derivation of cypher/grammar/Cypher.g4 (read from the tree under check) with <= k deviations from the cheapest derivation of every rule in its best context and <= k-1 at every "
-        "other grammar position (k = 2 quick, 3 thorough; 87k derivations quick), every corpus query, and every single-token mutation of both. Each accepted text must give a model that "
+        "other grammar position (k = 2 quick, 3 thorough; 87k derivations quick), every corpus query, every single-token mutation of both, and every map-literal position x every ordered pair of key spellings (plain, backtick-quoted, reserved word; 294 texts). Each accepted text must give a model that "
         "(a) the emitter can write, (b) whose emitted text parses to an equal model (fixed point), and (c) whose emitted text contains the content tokens of the input (identifiers, literals, "
         "operators, range bounds) per an independent token oracle; nothing the grammar accepts may be dropped, reinterpreted or replaced without an error.",
    note="Trusted: the independent token-content oracle (which tokens are content, numeric literal equivalence). 20 failure classes found here were repaired in /repo (fix: commits).",
